@@ -37,6 +37,7 @@ fn main() {
         law: Law::ValueUndef,
         w_lo: 2,
         w_extra: 2,
+        scales: vec![(1.0 / 8192.0, 1.0 / 8192.0), (1024.0, 1.0 / 8192.0), (1.0 / 8192.0, 1024.0)],
         classify: classify2,
     };
     let pairs_m = PairFam {
@@ -54,6 +55,7 @@ fn main() {
         law: Law::ValueUndef,
         w_lo: 2,
         w_extra: 2,
+        scales: vec![],
         classify: classify2,
     };
     let trend = SeriesFam {
@@ -68,6 +70,7 @@ fn main() {
         w_lo: 2,
         w_extra: 2,
         min_len: 0,
+        scales: vec![1.0 / 8192.0, 1024.0],
         cfg_ok: cfg_all,
         classify: classify1,
     };
@@ -176,6 +179,7 @@ fn clone_pair(p: &PairFam) -> PairFam {
         law: p.law,
         w_lo: p.w_lo,
         w_extra: p.w_extra,
+        scales: p.scales.clone(),
         classify: p.classify,
     }
 }
